@@ -447,24 +447,23 @@ func (c *v15Conn) addFrame(tok string) bool {
 		default:
 			return false
 		}
+		// The block is split at field boundaries: fragment i of ncont+1 carries the fields
+		// [i*n/(ncont+1), (i+1)*n/(ncont+1)), so the model knows which fragment completes which field.
 		c.hbuf.Reset()
+		offs := []int{0}
 		for _, x := range fs {
 			c.henc.WriteField(hpack.HeaderField{Name: x.n, Value: x.v})
+			offs = append(offs, c.hbuf.Len())
 		}
 		block := append([]byte(nil), c.hbuf.Bytes()...)
 		first := block
 		var rest [][]byte
 		if ncont > 0 {
-			n := len(block) / (ncont + 1)
-			first = block[:n]
-			b := block[n:]
-			for k := 0; k < ncont; k++ {
-				m := n
-				if k == ncont-1 {
-					m = len(b)
-				}
-				rest = append(rest, b[:m])
-				b = b[m:]
+			n := len(fs)
+			cut := func(i int) int { return offs[i*n/(ncont+1)] }
+			first = block[:cut(1)]
+			for k := 1; k <= ncont; k++ {
+				rest = append(rest, block[cut(k):cut(k+1)])
 			}
 		}
 		c.wfr.WriteHeaders(HeadersFrameParam{StreamID: sid, BlockFragment: first, EndStream: f[2] == "1", EndHeaders: ncont == 0})
